@@ -83,12 +83,14 @@ def run(tier):
     for text, smw in (("CCO.|30%|CCC.|70%|", None), ("CCO.|30%|CCC", None), ("CC.|40%|O{[$][$]CC[$][$]}N", 150), ("CCO.|10%|CCC.|100|CCCC.|100|", None),
                       ("O{[$][$]CC[$][$]}N.|100|", None)):
         s = g.System(text, smw)
-        if s.generable:
-            continue
         refusals += 1
-        for name, fn in (("generator", lambda: next(iter(type(s).generator.fget(s, np.random.default_rng(1))))),
-                         ("generate", lambda: s.generate(rng=np.random.default_rng(1)))):
-            for seed in range(4):
+        if s.generable:
+            # not generable by construction: under-determined masses, or a stochastic object without distribution
+            v.violation("C13:non-generable-system-reported-generable", f"System({text!r}, {smw}) cannot be generated (under-determined or an object without "
+                        f"distribution) but reports generable=True", {"system": text, "system_molweight": smw})
+        for name, fn in (("generator", lambda: next(iter(type(s).generator.fget(s, np.random.default_rng(seed))))),
+                         ("generate", lambda: s.generate(rng=np.random.default_rng(seed)))):
+            for seed in range(6):
                 try:
                     m = fn()
                     v.violation(f"C13:non-generable-system-generates:{name}", f"System({text!r}, {smw}) is not generable but {name} returned {getattr(m, 'smiles', m)!r}",
